@@ -17,6 +17,7 @@ package state
 //@   modifies s.stateObjects[_]
 //@   ensures r == liveObj(s, addr)
 //@   ensures old(liveObj(s, addr)) != nil ==> r == old(liveObj(s, addr))
+//@   ensures r != nil ==> r.data.Balance != nil
 //@   ensures forall a common.Address :: a != addr ==> has(s.stateObjects, a) == old(has(s.stateObjects, a)) && s.stateObjects[a] == old(s.stateObjects[a])
 
 //@ trusted func (e journalEntry) dirtied() (r *common.Address)
@@ -45,6 +46,23 @@ package state
 //@   ensures [journalsACopy] unbox(s.db.journal.entries[old(len(s.db.journal.entries))], balanceChange).prev != amount && unbox(s.db.journal.entries[old(len(s.db.journal.entries))], balanceChange).prev != old(s.data.Balance)
 //@   ensures [journalsAccount] *unbox(s.db.journal.entries[old(len(s.db.journal.entries))], balanceChange).account == s.address
 
+// Crediting or debiting builds the new balance in a NEW big.Int: the object holding the old balance is
+// left alone, so the value SetBalance journals is the balance before the change.
+//@ func (s *stateObject) AddBalance(amount *big.Int)
+//@   for C09 C08
+//@   requires s != nil && amount != nil && s.db != nil && s.db.journal != nil && s.db.journal.dirties != nil && s.data.Balance != nil
+//@   modifies s.data.Balance, s.db.journal.entries, s.db.journal.dirties[_], []journalEntry
+//@   ensures [credited] s.data.Balance != nil && s.data.Balance.v == old(s.data.Balance.v) + amount.v
+//@   ensures [oldBalanceObjectUntouched] old(s.data.Balance).v == old(s.data.Balance.v) && amount.v == old(amount.v)
+//@   ensures [journalsBalanceBeforeCredit] amount.v != 0 ==> len(s.db.journal.entries) == old(len(s.db.journal.entries)) + 1 && dyntype(s.db.journal.entries[old(len(s.db.journal.entries))]) == typeid(balanceChange) && unbox(s.db.journal.entries[old(len(s.db.journal.entries))], balanceChange).prev.v == old(s.data.Balance.v)
+//@ func (s *stateObject) SubBalance(amount *big.Int)
+//@   for C09 C08
+//@   requires s != nil && amount != nil && s.db != nil && s.db.journal != nil && s.db.journal.dirties != nil && s.data.Balance != nil
+//@   modifies s.data.Balance, s.db.journal.entries, s.db.journal.dirties[_], []journalEntry
+//@   ensures [debited] s.data.Balance != nil && s.data.Balance.v == old(s.data.Balance.v) - amount.v
+//@   ensures [oldBalanceObjectUntouched] old(s.data.Balance).v == old(s.data.Balance.v) && amount.v == old(amount.v)
+//@   ensures [journalsBalanceBeforeDebit] amount.v != 0 ==> len(s.db.journal.entries) == old(len(s.db.journal.entries)) + 1 && dyntype(s.db.journal.entries[old(len(s.db.journal.entries))]) == typeid(balanceChange) && unbox(s.db.journal.entries[old(len(s.db.journal.entries))], balanceChange).prev.v == old(s.data.Balance.v)
+
 //@ func (s *stateObject) SetNonce(nonce uint64)
 //@   for C08 C09
 //@   requires s != nil && s.db != nil && s.db.journal != nil && s.db.journal.dirties != nil
@@ -53,6 +71,46 @@ package state
 //@   ensures [oneEntry] len(s.db.journal.entries) == old(len(s.db.journal.entries)) + 1
 //@   ensures [journalsOldNonce] dyntype(s.db.journal.entries[old(len(s.db.journal.entries))]) == typeid(nonceChange) && unbox(s.db.journal.entries[old(len(s.db.journal.entries))], nonceChange).prev == old(s.data.Nonce)
 //@   ensures [journalsAccount] *unbox(s.db.journal.entries[old(len(s.db.journal.entries))], nonceChange).account == s.address
+
+// Self-destruct journals the mark and the balance as they were BEFORE it changes them, then marks the
+// account and empties it -- every time it is called, also on an account already marked.
+//@ func (s *StateDB) Suicide(addr common.Address) (r bool)
+//@   for C08 C09
+//@   requires s != nil && s.journal != nil && s.journal.dirties != nil
+//@   modifies s.stateObjects[_], s.journal.entries, s.journal.dirties[_], []journalEntry, stateObject.suicided, stateObject.data
+//@   ensures [noObjectNoEffect] !r ==> len(s.journal.entries) == old(len(s.journal.entries))
+//@   ensures [oneEntry] r ==> len(s.journal.entries) == old(len(s.journal.entries)) + 1 && dyntype(s.journal.entries[old(len(s.journal.entries))]) == typeid(suicideChange)
+//@   ensures [journalsOldMark] r && old(liveObj(s, addr)) != nil ==> unbox(s.journal.entries[old(len(s.journal.entries))], suicideChange).prev == old(liveObj(s, addr).suicided)
+//@   ensures [journalsOldBalance] r && old(liveObj(s, addr)) != nil ==> unbox(s.journal.entries[old(len(s.journal.entries))], suicideChange).prevbalance != nil && unbox(s.journal.entries[old(len(s.journal.entries))], suicideChange).prevbalance.v == old(liveObj(s, addr).data.Balance.v)
+//@   ensures [journalsAccount] r ==> *unbox(s.journal.entries[old(len(s.journal.entries))], suicideChange).account == addr
+//@   ensures [markedAndEmptied] r ==> liveObj(s, addr) != nil && liveObj(s, addr).suicided && liveObj(s, addr).data.Balance != nil && liveObj(s, addr).data.Balance.v == 0
+
+// A storage write journals the slot's CURRENT value (the dirty value if the transaction already wrote
+// the slot), so that reverting an inner frame restores the outer frame's write, not the committed value.
+// (reading the committed value goes to the snapshot or the trie, outside the subset: trusted, with the
+// caches and counters it may touch as its frame)
+//@ trusted func (s *stateObject) GetCommittedState(db Database, key common.Hash) (r common.Hash)
+//@   requires s != nil
+//@   modifies s.originStorage[_], s.trie, s.db.dbErr, s.db.SnapshotStorageReads, s.db.StorageReads
+//@   ensures old(has(s.pendingStorage, key)) ==> r == old(s.pendingStorage[key])
+//@ func (s *stateObject) GetState(db Database, key common.Hash) (r common.Hash)
+//@   for C08
+//@   requires s != nil
+//@   modifies s.originStorage[_], s.trie, s.db.dbErr, s.db.SnapshotStorageReads, s.db.StorageReads
+//@   ensures [dirtyValueWins] old(has(s.dirtyStorage, key)) ==> r == old(s.dirtyStorage[key])
+//@ func (s *stateObject) SetState(db Database, key, value common.Hash)
+//@   for C08
+//@   requires s != nil && s.db != nil && s.db.journal != nil && s.db.journal.dirties != nil && s.dirtyStorage != nil
+//@   modifies *
+//@   atcall journal.append requires [journalsCurrentValue] dyntype(entry) == typeid(storageChange) && unbox(entry, storageChange).key == key && *unbox(entry, storageChange).account == s.address && unbox(entry, storageChange).prevalue == prev && prev != value
+//@   atcall journal.append requires [dirtyValueIsTheCurrentValue] old(has(s.dirtyStorage, key)) ==> unbox(entry, storageChange).prevalue == old(s.dirtyStorage[key])
+//@   ensures [valueWrittenOrUnchanged] has(s.dirtyStorage, key) && s.dirtyStorage[key] == value || !old(has(s.dirtyStorage, key)) || old(s.dirtyStorage[key]) == value
+//@ func (ch storageChange) revert(s *StateDB)
+//@   for C08
+//@   requires s != nil && ch.account != nil
+//@   requires liveObj(s, *ch.account) != nil && liveObj(s, *ch.account).dirtyStorage != nil
+//@   modifies s.stateObjects[_], liveObj(s, *ch.account).dirtyStorage[_]
+//@   ensures [restored] liveObj(s, *ch.account) != nil && has(liveObj(s, *ch.account).dirtyStorage, ch.key) && liveObj(s, *ch.account).dirtyStorage[ch.key] == ch.prevalue
 
 //@ func (s *StateDB) AddRefund(gas uint64)
 //@   for C08
